@@ -211,6 +211,9 @@ func validateUnionCases(env *Environment, errorSink *validation.ErrorSink) *Envi
 				// Check the referenced type with the type arguments provided
 				self.Visit(t.ResolvedDefinition, true)
 			}
+			// ... and the type arguments as they are written: a union given as a type argument is checked in place
+			// (through the reference only what the arguments cause together with the referenced definition is reported)
+			self.VisitChildren(node, visitingReference)
 		default:
 			self.VisitChildren(node, visitingReference)
 		}
